@@ -698,12 +698,12 @@ func bridgeRawQuery(m msg) bool {
 	return false
 }
 
-// TestWitnessBridgeRequestLine (open finding; found by FuzzHandle in the thorough
+// TestRegBridgeRequestLine (fixed finding; found by FuzzHandle in the thorough
 // tier): "N|get|api:<path>?<query with a space>" reaches api.callAPI, which copies
 // the raw query unescaped into httptest.NewRequest; that function panics on a
 // malformed request line, on the bare request goroutine: the process dies.
 // The witness fails (the test process dies) while the defect exists.
-func TestWitnessBridgeRequestLine(t *testing.T) {
+func TestRegBridgeRequestLine(t *testing.T) {
 	ns := newNS()
 	c := &dbCase{NS: ns, Msgs: []msg{
 		build(kGet, "1", "api:endpoints?a b", "", nil),
